@@ -29,6 +29,8 @@ Kind(k, i) ==
       [] k = "post"    -> [req |-> Req("POST", "/p" \o ToDec(i) \o "?x=1", "cl", 5, << >>), beh |-> "ok"]
       [] k = "chunked" -> [req |-> Req("PUT", "/c" \o ToDec(i), "chunked", 7, <<3, 4>>), beh |-> "ok"]
       [] k = "panic"   -> [req |-> Req("POST", "/boom" \o ToDec(i), "cl", 3, << >>), beh |-> "panic"]
+      \* the handler hijacks the connection: the response is written, then the connection belongs to the handler
+      [] k = "hijack"  -> [req |-> Req("GET", "/hj" \o ToDec(i), "none", 0, << >>), beh |-> "hijack"]
       \* malformed heads: a header line without a colon; an empty method; a non-numeric Content-Length
       [] k = "bad1"    -> [req |-> Raw("GET /bad HTTP/1.1\r\nHost: example.com\r\nNoColonHere\r\n\r\n"), beh |-> "ok"]
       [] k = "bad2"    -> [req |-> Raw(" /nomethod HTTP/1.1\r\nHost: example.com\r\n\r\n"), beh |-> "ok"]
@@ -37,7 +39,7 @@ Kind(k, i) ==
       [] k = "big"     -> [req |-> Req("POST", "/big" \o ToDec(i), "cl", 100, << >>), beh |-> "ok"]
 
 Good == {"get", "post", "chunked", "panic"}
-LastKinds == Good \cup {"bad1", "bad2", "bad3", "big"}
+LastKinds == Good \cup {"bad1", "bad2", "bad3", "big", "hijack"}
 
 RECURSIVE SeqsOfLen(_, _)
 SeqsOfLen(S, n) == IF n = 0 THEN {<< >>} ELSE {Append(p, s) : p \in SeqsOfLen(S, n - 1), s \in S}
@@ -46,11 +48,12 @@ Histories == UNION {{Append(p, l) : p \in SeqsOfLen(Good, n - 1), l \in LastKind
 \* variants of a history h: end of connection / faults
 Variants(h) ==
     LET n == Len(h) lastGood == h[n] \in Good lastBody == h[n] \in {"post", "chunked", "panic", "big"} IN
-    {[close |-> FALSE, cut |-> 0, wfail |-> 0]}
-    \cup (IF lastGood THEN {[close |-> TRUE, cut |-> 0, wfail |-> 0]} ELSE {})
-    \cup (IF lastBody THEN {[close |-> FALSE, cut |-> -2, wfail |-> 0]} ELSE {})      \* peer closes after the first byte behind the last head
-    \cup {[close |-> FALSE, cut |-> -1000, wfail |-> 0]}                                \* peer closes in the middle of the last head
-    \cup {[close |-> FALSE, cut |-> 0, wfail |-> w] : w \in {x \in 1 .. n : h[x] \in Good}}
+    {[close |-> FALSE, cut |-> 0, wfail |-> 0, stall |-> FALSE]}
+    \cup (IF lastGood THEN {[close |-> FALSE, cut |-> 0, wfail |-> 0, stall |-> TRUE]} ELSE {})   \* the peer goes silent: idle time-out
+    \cup (IF lastGood THEN {[close |-> TRUE, cut |-> 0, wfail |-> 0, stall |-> FALSE]} ELSE {})
+    \cup (IF lastBody THEN {[close |-> FALSE, cut |-> -2, wfail |-> 0, stall |-> FALSE]} ELSE {})      \* peer closes after the first byte behind the last head
+    \cup {[close |-> FALSE, cut |-> -1000, wfail |-> 0, stall |-> FALSE]}                                \* peer closes in the middle of the last head
+    \cup {[close |-> FALSE, cut |-> 0, wfail |-> w, stall |-> FALSE] : w \in {x \in 1 .. n : h[x] \in Good}}
 
 AllPairs == SetToSeq({<<h, v>> : h \in Histories, v \in UNION {Variants(g) : g \in Histories}})
 Valid == SelectSeq(AllPairs, LAMBDA x : x[2] \in Variants(x[1]))
@@ -64,7 +67,7 @@ CutAt(h, v) == LET o == Offsets(ScriptOf(h, v)) n == Len(h) IN
 Case(k) == LET h == Valid[k][1] v == Valid[k][2] s == ScriptOf(h, v) IN
            [id |-> k, script |-> s, wire |-> Encode(s), offs |-> Offsets(s),
             behs |-> [i \in 1 .. Len(h) |-> Kind(h[i], i).beh], hist |-> h,
-            fault |-> [truncate |-> CutAt(h, v), wfail |-> v.wfail, maxBody |-> 64]]
+            fault |-> [truncate |-> CutAt(h, v), wfail |-> v.wfail, maxBody |-> 64, stall |-> v.stall]]
 
 ASSUME ndJsonSerialize(IOEnv.VERIF_OUT, [k \in 1 .. Len(Valid) |-> Case(k)])
 
